@@ -161,6 +161,8 @@ pub open spec fn rel_mentions<F>(op: Op<F>, x: WitnessId) -> bool {
         Op::NonPrimitiveOpWithExecutor { inputs, outputs, .. } => in_seq2(inputs@, x) || in_seq2(outputs@, x),
     }
 }
+/// slots filled by set_private_inputs: they have NO defining op in the list (uninterpreted: the optimizer is not told which slots they are)
+pub uninterp spec fn is_private_input_slot(w: WitnessId) -> bool;
 /// (add_idx, mul_idx) is a sound fusion of ops: a plain product m = a*b read only by the plain sum out = m + addend
 pub open spec fn fusable<F>(ops: Seq<Op<F>>, add_idx: int, mul_idx: int, muladd: Op<F>) -> bool {
     &&& 0 <= add_idx < ops.len() && 0 <= mul_idx < ops.len() && add_idx != mul_idx
